@@ -217,21 +217,15 @@ def parse_int(b):
     return v
 
 
+_LENIENT_INT = __import__("re").compile(rb"\A[+-]?[0-9]+\Z")
+
+
 def is_noncanonical_int(b):
-    """Integer spellings Redis refuses but lenient parsers accept: never generated,
-    never judged (DONTCARE)."""
+    """Integer spellings Redis refuses but lenient parsers accept ("+5", "007",
+    "-0"): never generated on purpose, never judged (DONTCARE)."""
     if parse_int(b) is not None:
         return False
-    try:
-        s = b.decode("ascii")
-    except Exception:
-        return False
-    t = s.strip()
-    if t[:1] in "+-":
-        t2 = t[1:]
-    else:
-        t2 = t
-    return t2.isdigit()
+    return isinstance(b, bytes) and _LENIENT_INT.match(b) is not None
 
 
 def ANY_NOEFFECT_UNKNOWN(model, db, key):
@@ -1226,6 +1220,20 @@ class Model:
         if e is not None and a[1] in e.v:
             cur = parse_int(e.v[a[1]])
             if cur is None:
+                old = e.v[a[1]]
+                if is_noncanonical_int(old) and old == old.strip():
+                    lenient = int(old.decode("ascii")) + n
+                    if I64_MIN <= lenient <= I64_MAX and I64_MIN <= lenient - n <= I64_MAX:
+                        field = a[1]
+
+                        def fn(act):
+                            if isinstance(act, Err):
+                                return True
+                            if act == lenient and not isinstance(act, bool):
+                                e.v[field] = b"%d" % lenient
+                                return True
+                            return False
+                        return Adopt(fn, "error, or %d by lenient integer parsing" % lenient)
                 return ERR
         nv = cur + n
         if nv < I64_MIN or nv > I64_MAX:
@@ -1430,7 +1438,7 @@ class Model:
                 return ERR if cnt is None else ANY  # negative count: versions differ
         e, wt = self._typed(db, a[0], "zset")
         if wt:
-            return ERR
+            return ANY if cnt == 0 else ERR  # count 0 before/after the type check: versions differ
         if e is None or cnt == 0:
             return OneOf([], NULL_ARRAY)
         order = zorder(e.v)
